@@ -31,7 +31,7 @@ MODULES = [
     (r"^c09_|^c05_|^c18_|^c12_negotiation|^c10_commit|^c10_url|^c10_junos", "session::verif_session"),
     (r"^c12_server_hello|^c12_capabilit|^c13_capabilit|^c13_session_id", "message::hello::verif_hello"),
     (r"^c08_load_|^c10_load_configuration", "message::rpc::operation::junos::load_configuration::verif_load"),
-    (r"^c08_rpc_error_reader", "message::rpc::error::verif_error"),
+    (r"^c08_rpc_error_reader|^c13_rpc_error_prefix", "message::rpc::error::verif_error"),
     (r"^c08_|^c13_|^c14_reply|^cal_", "message::rpc::verif_replies"),
     (r"^c19_frequency", "cli::verif_cli"),
     (r"^c19_slice_", "task::verif_task_slice"),
@@ -411,9 +411,10 @@ CHECKS["C13"] = {
     "explanation": "2-safety harnesses at event level: a reader is run on a tape and on information-preserving rewrites of it and must reach the same "
                    "outcome: a comment inserted before / after the item of a one-item reply (EmptyReply, one harness per item kind: quick <ok/>, "
                    "rpc-error, <data>; thorough all 8 kinds); a comment before / after a <capability> inside <capabilities>; <ok/> vs <ok></ok>; "
-                   "an XML declaration in front of <rpc-reply>; whitespace around the <session-id> text and around a <capability> URI.",
+                   "an XML declaration in front of <rpc-reply>; whitespace around the <session-id> text and around a <capability> URI; an <rpc-error> (with / without <error-message>) "
+                   "in the default namespace vs with every element name prefixed (real rpc::Error::read_xml).",
     "assumptions": ["attribute quoting/order and inter-element whitespace are resolved inside quick-xml and invisible at event level",
-                    "NOT covered: namespace prefix vs default namespace - the event model has no prefixed element names (qualified name = local name), so code that compares qualified names (read_text / read_to_end end tags) is never run on a prefixed spelling (seed C13a is missed for this reason)",
+                    "namespace prefix vs default namespace: decided only for the real rpc::Error::read_xml (c13_rpc_error_prefix_choice: every element name spelled nc:…, the model keeps qualified and local names apart through a table of local-part offsets; namespace resolution itself is quick-xml's); all other harnesses use unprefixed names, so qualified-name comparisons in the other readers are not run on a prefixed spelling",
                     "NOT covered: whitespace around the token-valued texts of <rpc-error> children and of message-id, comments inside DataReply / BareReply / "
                     "load-configuration results and between the children of <hello>, and the configuration readers of the agent (which match <reject/> etc. as "
                     "empty-element events only, like the two sites repaired by 1fdf0d6)"],
@@ -430,6 +431,9 @@ CHECKS["C13"] = {
                 bounds="hello {capabilities (summarised), session-id 1}: compact vs session-id text padded with whitespace", loops=HELLO_LOOPS, stubbing=True, mem_gb=30),
         harness("c13_capability_whitespace", functions=["Capabilities::read_xml"],
                 bounds="<capabilities> holding :base:1.0: compact vs URI padded with whitespace", loops=HELLO_LOOPS, stubbing=True, mem_gb=30),
+        harness("c13_rpc_error_prefix_choice", functions=["rpc::Error::read_xml", "Type/Tag/Severity::from_str"],
+                bounds="<rpc-error> with its three mandatory children, without / with <error-message>; default namespace vs every element spelled nc:…",
+                loops=dict(READER_LOOPS, **{r"seek_end": 17}), mem_gb=30),  # a reader that misses an end tag scans to the end of the tape (<= 15 cells)
         harness("c13_empty_reply_ok_element_form", functions=["EmptyReply::read_xml"], bounds="<ok/> vs <ok></ok>", loops=READER_LOOPS, mem_gb=30),
         harness("c13_partial_reply_xml_declaration", functions=["PartialReply::from_xml/read_xml"], bounds="<rpc-reply><ok/></rpc-reply> with and without <?xml?>", loops=SESSION_LOOPS, mem_gb=30),
     ],
